@@ -505,8 +505,8 @@ def gen_encl(rng, tier):
                     yield Case("log2encl", [fenc(B, s * rng.choice([1, -1]), ee, prec=0)])
 
 def gen_estimator_edge(rng, tier):
-    """exponents beyond 2^24, where `exponent as f32` rounds (the enclosure hypothesis is known to fail there by
-    less than an ulp): pairs of floats in power-of-two bases whose log2 differ by a few units, compared exactly"""
+    """exponents beyond 2^24, where `exponent as f32` rounds (the enclosure failed there by less than an ulp before
+    fix 378134e): pairs of floats in power-of-two bases whose log2 differ by a few units, compared exactly"""
     n = 150 if tier == "quick" else 8000
     for _ in range(n):
         base = rng.choice([1 << 24, 1 << 25, 1 << 25, 1 << 26])
@@ -530,7 +530,7 @@ def gen_estimator_edge(rng, tier):
             yield Case("log2encl", [x])
 
 def gen_overflow(rng, tier):
-    """DEFECT E directed: |exponent| * bit_len(B) around isize::MAX against f32/f64"""
+    """|exponent| * bit_len(B) around isize::MAX against f32/f64 (overflowed isize before fix 318bce3)"""
     for B, bl in ((2, 2), (10, 4), (16, 5)):
         lim = (1 << 63) // bl
         for e in (lim - 2, lim - 1, lim, lim + 1, lim + 1000, (1 << 62) + 5, (1 << 63) - 1):
@@ -558,118 +558,25 @@ def nontrivial(c):
         return True
     return kind(c.args[0]) != kind(c.args[1])
 
-# ----------------------------------------------------------------------------- known-finding predicates
+# ----------------------------------------------------------------------------- helpers
 
 def _ival(s):
     return -int(s[1:], 16) if s.startswith("-") else int(s, 16)
-
-def _fval(a):
-    """primitive float argument -> python float / None"""
-    t = a.split(":")
-    if t[0] != "p" or t[1] not in ("f32", "f64"):
-        return None
-    if t[1] == "f32":
-        return struct.unpack(">f", struct.pack(">I", int(t[2], 16)))[0]
-    return struct.unpack(">d", struct.pack(">Q", int(t[2], 16)))[0]
-
-def _is_zero(a):
-    t = a.split(":")
-    if t[0] == "n":
-        return _ival(t[1]) == 0
-    if t[0] == "f":
-        return _ival(t[2]) == 0 and int(t[3]) == 0
-    if t[0] == "q":
-        return _ival(t[1].split("/")[0]) == 0
-    return False
-
-def kf_zero_tiny(args):
-    """DEFECT A: a zero UBig/IBig/FBig (RBig/Relaxed) against a primitive float 0 < f < 1/2 (< 1/4)"""
-    if len(args) < 2:
-        return False
-    for z, f in ((args[0], args[1]), (args[1], args[0])):
-        v = _fval(f)
-        if v is not None and v == v and _is_zero(z) and not z.startswith("p:"):
-            lim = 0.25 if z.startswith("q:") else 0.5
-            if 0 < v < lim:
-                return True
-    return False
-
-def kf_ibig_inf(args):
-    """DEFECT F: IBig against an infinity of its own sign"""
-    if len(args) < 2:
-        return False
-    for z, f in ((args[0], args[1]), (args[1], args[0])):
-        v = _fval(f)
-        t = z.split(":")
-        if v is not None and abs(v) == float("inf") and t[0] == "n" and t[2] == "I":
-            if (_ival(t[1]) < 0) == (v < 0):
-                return True
-    return False
-
-def kf_float_abs_negative(args):
-    """DEFECT B: AbsOrd between a finite FBig and a UBig/IBig where the significand (or the IBig) is negative"""
-    if len(args) < 2:
-        return False
-    for f, n in ((args[0], args[1]), (args[1], args[0])):
-        tf, tn = f.split(":"), n.split(":")
-        if tf[0] == "f" and tn[0] == "n":
-            s = _ival(tf[2])
-            if s == 0:
-                return False
-            return s < 0 or (tn[2] == "I" and _ival(tn[1]) < 0)
-    return False
-
-def kf_hash_den_multiple(args):
-    """DEFECT C: a Relaxed whose stored numerator and denominator are both multiples of 2^127 - 1
-    (Relaxed::from_parts only cancels powers of two, which does not affect divisibility by M)"""
-    for a in args:
-        t = a.split(":")
-        if t[0] == "q" and t[2] == "X":
-            n, d = t[1].split("/")
-            if _ival(n) != 0 and int(d, 16) % M127 == 0 and _ival(n) % M127 == 0:
-                return True
-    return False
-
-def kf_prim_abs_min(args):
-    """DEFECT D: iN::MIN.abs_cmp / abs_eq"""
-    for a in args:
-        t = a.split(":")
-        if t[0] == "p" and t[1].startswith("i"):
-            bits = 64 if t[1] == "isize" else int(t[1][1:])
-            if _ival(t[2]) == -(1 << (bits - 1)):
-                return True
-    return False
-
-def kf_float_exp_overflow(args):
-    """DEFECT E: FBig against f32/f64 with |exponent| * bit_len(B) beyond isize"""
-    if len(args) < 2:
-        return False
-    for f, p in ((args[0], args[1]), (args[1], args[0])):
-        tf = f.split(":")
-        if tf[0] == "f" and _fval(p) is not None:
-            B = int(tf[1]); e = int(tf[3]); s = _ival(tf[2])
-            if s != 0 and abs(e) * B.bit_length() + abs(s).bit_length() + abs(e) >= (1 << 63):
-                return True
-    return False
-
-def kf_log2_exp_rounding(args):
-    """ESTIMATOR finding: FBig with |exponent| >= 2^24 (`self.exponent as f32` is inexact there)"""
-    t = args[0].split(":")
-    return t[0] == "f" and abs(int(t[3])) >= (1 << 24)
 
 # ----------------------------------------------------------------------------- texts
 
 REFINED = [
     "float/src/cmp.rs repr_cmp_ubig::<B,false>, repr_cmp_ibig::<B,false> (sign -> log2-bound filter -> exact scaling), for every sound oracle",
     "float/src/cmp.rs repr_cmp_same_base::<B,ABS> (Ord / AbsOrd for FBig: infinities, signs, zeros, exponent+precision and exponent+digits shortcuts, aligned exact step)",
-    "float/src/cmp.rs repr_cmp_ubig/ibig::<B,true> (AbsOrd FBig x UBig/IBig) for non-negative operands (partial: defect B)",
-    "float/src/third_party/num_order.rs NumOrd<Repr<B2>> for Repr<B1> (any two bases), NumOrd<f32/f64> for Repr<B> (bit-length bounds; partial: defect A)",
-    "integer/src/third_party/num_order.rs NumOrd between UBig/IBig and each other, all primitive integers, f32/f64 (partial: defects A, F)",
+    "float/src/cmp.rs repr_cmp_ubig/ibig::<B,true> (AbsOrd FBig x UBig/IBig, any signs)",
+    "float/src/third_party/num_order.rs NumOrd<Repr<B2>> for Repr<B1> (any two bases), NumOrd<f32/f64> for Repr<B> (bit-length bounds in i128)",
+    "integer/src/third_party/num_order.rs NumOrd between UBig/IBig and each other, all primitive integers, f32/f64",
     "rational/src/cmp.rs repr_cmp::<ABS>, repr_eq::<ABS>, repr_cmp_ubig/ibig::<ABS>, with_float::repr_cmp_fbig::<B,ABS>",
-    "rational/src/third_party/num_order.rs NumOrd<f32/f64> for Repr (partial: defect A), the dispatch table of all implemented pairs",
+    "rational/src/third_party/num_order.rs NumOrd<f32/f64> for Repr, the dispatch table of all implemented pairs",
     "FloatEncoding::decode as used by the comparisons (bit pattern -> NaN / +-inf / man*2^exp; range lemma decode_inRange)",
     "NumHash for UBig, IBig, Repr<B>/FBig, rational Repr (RBig, Relaxed), and num-order's impls for every primitive integer and f32/f64: "
-    "each feeds hashQ(value) = +-(|n| mod M)(d mod M)^-1 in Z/M, M = 2^127-1 proved prime (partial: denominators that are units mod M; defect C)",
+    "each feeds hashQ(value) = +-(|n| mod M)(d mod M)^-1 in Z/M, M = 2^127-1 proved prime; rational Repr first cancels a common factor M; full: equal values feed the same i128",
+    "base/src/sign.rs AbsOrd for iN (unsigned_abs)",
     "the driver's oracles (bit-length bounds with a 1/1024-precise rational enclosure of log2 B; never-filter) satisfy the enclosure hypothesis",
 ]
 FRONTIER = [
@@ -677,7 +584,6 @@ FRONTIER = [
     "num-modular FixedMersenneInt<127,1> (convert/pow/inv): used at its specification (arithmetic mod 2^127-1; inv = the unique inverse)",
     "the real f32 estimators (UBig/IBig/Repr<B>/rational log2_bounds, digits_ub): a PARAMETER of the theorems; the enclosure hypothesis is checked "
     "on the real code per generated input by the harness op log2encl (f64 recomputation), not proved",
-    "machine isize arithmetic in the bit-length estimates is modelled in Int (overflow = recorded defect E)",
 ]
 RULE = ("values drawn from families {small integers, boundaries of every primitive integer type, f32/f64 range boundaries (2^24, 2^53, max, least "
         "subnormal, 2^1024, bit lengths 1077/1078), multiples and neighbours of M = 2^127-1, integers of 1..40 words in 11 bit patterns, dyadic, "
@@ -695,37 +601,36 @@ RULE = ("values drawn from families {small integers, boundaries of every primiti
 EXPLANATION = ("Theorems (all inputs, no size bounds; for EVERY estimator satisfying the enclosure hypothesis lb <= log2|x| <= ub): each mirrored "
                "comparison function (sign -> log2-bound filter -> exact comparison after scaling) returns the order of the exact rationals, NaN "
                "incomparable, -0.0 = 0, infinities at the ends, i.e. the estimate path and the exact path cannot disagree; the whole dispatch table of "
-               "implemented NumOrd / AbsOrd pairs is covered (num_ord_exact_partial, abs_ord_exact_partial), partial exactly outside the recorded "
-               "defect classes A (zero vs tiny positive float), F (IBig vs infinity of its sign), B (AbsOrd FBig x UBig/IBig with negative operands), each "
-               "with a counterexample theorem. NumHash: every impl feeds hashQ(value) in Z/(2^127-1) (prime, proved by Lucas-Lehmer), hence equal "
-               "values of any two types feed the same i128 whenever rational denominators are units mod M; the M | den corner is decided: consistent "
-               "unless M divides BOTH stored parts of a non-reduced Relaxed (counterexample RBig 1/1 vs Relaxed M/M, reproduced on the real code), and "
-               "the cancelled variant is a function of the value for all rationals. The driver runs the model with a bit-length oracle and with a "
-               "never-filtering oracle (both proved sound) and against the specification on every case.")
+               "implemented NumOrd / AbsOrd pairs is covered by FULL theorems (num_ord_exact, num_eq_exact, abs_ord_exact, ord_exact). NumHash: every "
+               "impl feeds hashQ(value) in Z/(2^127-1) (prime, proved by Lucas-Lehmer), hence equal values of any two types feed the same i128 "
+               "(num_hash_value, full: non-reduced Relaxed included). The model mirrors /repo after the seven C14 fix commits; the pre-fix code is kept "
+               "as a separate model only for labelled as-is statements (prefix_*) of the repaired defects. The driver runs the model with a bit-length "
+               "oracle and with a never-filtering oracle (both proved sound) and against the specification on every case.")
 ASSUMPTIONS = [
-    "the real f32 estimators satisfy the enclosure hypothesis on the compared inputs (checked per generated input by `log2encl`; KNOWN to fail by < 1 ulp for FBig exponents beyond 2^24 — recorded finding — with no wrongly decided comparison found)",
+    "the real f32 estimators satisfy the enclosure hypothesis on the compared inputs (checked per generated input by `log2encl`, incl. exponents beyond 2^24 where it failed before fix 378134e)",
     "big-integer Ord, shifts, products and powers compute their mathematical values (C01/C05/C09)",
     "num-modular's FixedMersenneInt arithmetic is arithmetic modulo 2^127-1 and Hasher::write_i128 forwards 16 native-endian bytes to write (observed by the recording hasher)",
     "FBig operands respect their constructors' invariants: significand 0 only with exponent 0 / +-1, digits <= precision (+1) when the precision is limited",
-    "no isize overflow in the bit-length estimates (|exponent| * bit_len(B) < 2^63; beyond that: recorded defect E)",
+    "i128 arithmetic of the bit-length estimates does not overflow (|exponent| < 2^63, bit_len(B) <= 64)",
 ]
 LEVEL_TEXT = ("Machine-checked Lean 4 theorems, for all inputs and for every estimate oracle satisfying the enclosure hypothesis, that the mirrored "
-              "NumOrd / AbsOrd code of all implemented type pairs returns the order of the exact rationals (partial exactly outside three recorded "
-              "defect classes, each with a counterexample theorem reproduced on the real code) and that every NumHash impl feeds a function of the exact "
-              "value in Z/(2^127-1) (the M | den corner decided, with witness). The hand-written model is tied to /repo on every run by differential "
-              "execution of model and real code over pairs rendered in every type, adjacent values, filter-slack pairs, huge exponents, specials; the "
-              "enclosure hypothesis is additionally checked on the real estimator for every generated operand.")
+              "NumOrd / AbsOrd code of all implemented type pairs returns the order of the exact rationals (NaN incomparable) and that NumHash of "
+              "numerically equal numbers of any two types feeds the same i128 (value in Z/(2^127-1), M proved prime); all property theorems are full. "
+              "The hand-written model is tied to /repo on every run by differential execution of model and real code over pairs rendered in every "
+              "type, adjacent values, filter-slack pairs, huge exponents, specials; the enclosure hypothesis is additionally checked on the real "
+              "estimator for every generated operand, and the impl set of the anchored files is re-derived from source.")
 LEVEL_NOTE = ("Trusted: Lean kernel; axioms propext/Classical.choice/Quot.sound (Mathlib reals are used only to STATE log2 enclosure); the "
               "correspondence harness and generators (sampling) for the tie model<->code; the f32 estimators enter only through the enclosure "
-              "hypothesis, which is tested (f64 recomputation with a tolerance far below f32 resolution), not proved, and is known to fail marginally "
-              "for exponents beyond 2^24; big-integer primitives and num-modular are used at their specifications (frontier list).")
+              "hypothesis, which is tested (f64 recomputation with a tolerance far below f32 resolution), not proved; big-integer primitives and num-modular are used at their specifications (frontier list).")
 THEOREMS = ["Dashu.Props.C14." + n for n in (
-    "spec_lt spec_eq spec_gt float_value_rat abs_value_rat enclosure_is_log2 filter_sound coarse_sound noFilter_sound "
-    "float_cmp_ubig float_cmp_ibig float_cmp_float ratio_cmp_ubig ratio_cmp_ibig ratio_cmp_float ratio_cmp_ratio ratio_eq_ratio "
-    "num_ord_exact_partial num_eq_exact_partial num_ord_oracle_independent num_ord_zero_counterexample num_ord_inf_counterexample "
-    "decoded_in_range abs_ord_exact_partial abs_ord_counterexample abs_ord_ibig_counterexample float_abs_cmp_same_base ord_exact "
-    "ratio_abs_cmp_ratio ratio_abs_cmp_float mersenne127_prime hash_is_function_of_value num_hash_value_partial num_hash_value_weak_partial "
-    "num_hash_corner_counterexample num_hash_canon_value num_hash_canon_eq_code").split()]
+    "spec_lt spec_eq spec_gt float_value_rat abs_value_rat enclosure_is_log2 "
+    "filter_sound coarse_sound noFilter_sound float_cmp_ubig float_cmp_ibig float_cmp_float "
+    "ratio_cmp_ubig ratio_cmp_ibig ratio_cmp_float ratio_cmp_ratio ratio_eq_ratio num_ord_exact "
+    "num_eq_exact num_ord_oracle_independent ubig_cmp_prim_float ibig_cmp_prim_float float_cmp_prim_float ratio_cmp_prim_float "
+    "decoded_in_range abs_ord_exact float_abs_cmp_ubig float_abs_cmp_ibig prim_abs_cmp float_abs_cmp_same_base "
+    "ord_exact ratio_abs_cmp_ratio ratio_abs_cmp_float mersenne127_prime num_hash_value hash_is_function_of_value "
+    "rat_hash_eq_body prefix_num_ord_zero prefix_num_ord_inf prefix_abs_ord_ubig prefix_abs_ord_ibig prefix_num_hash_corner "
+    "prefix_num_hash_value_weak ").split()]
 TECHNIQUE = "Lean 4 theorems over an executable mirrored model with estimate-oracle parameters + differential correspondence model vs real code"
 JOBS = 14
 READY = True
